@@ -79,15 +79,20 @@ def c_tree_two_deviations(ti: int, i1: int, v1: int, i2: int, v2: int, rb: int, 
   return _run2(ti, i1, v1, i2, v2, rb, g0, g1, soff, False, lambda r, au: TC.same_execution(r))
 
 
-@cond(tiers=('thorough',), timeout=7200, split={'ti': range(NA), 'b0': range(8), 'b1': range(8)})
+_AF_TREES = (1, 3, 5, 9, 12, 13)
+
+
+@cond(tiers=('thorough',), timeout=3600, split={'ti': _AF_TREES, 'b0': range(5), 'b1': range(5)})
 def c_tree_all_free(ti: int, b0: int, b1: int, b2: int, b3: int, b4: int, rb: int, fm: int, g0: int, g1: int, soff: bool) -> bool:
   """
-  pre: 0 <= ti < NA
-  pre: 0 <= b0 <= 7 and 0 <= b1 <= 7 and 0 <= b2 <= 7 and 0 <= b3 <= 7 and 0 <= b4 <= 7
-  pre: 0 <= rb <= 1 and -1 <= fm <= 4
-  pre: 0 <= g0 <= 4 and 0 <= g1 <= 4
+  pre: ti in _AF_TREES
+  pre: 0 <= b0 <= 4 and 0 <= b1 <= 4 and 0 <= b2 <= 4 and 0 <= b3 <= 4 and 0 <= b4 <= 4
+  pre: rb == 0 and fm == -1
+  pre: 0 <= g0 <= 2 and g1 == 0
   post: _
   """
+  # every phase of the tree free over {None, FAIL_AND_CONTINUE, SKIP, FAIL_SUBTEST, STOP} at once (sized to ~20 min;
+  # REPEAT/exception/timeout kinds, measurement failures and the second diagnoser are covered pairwise by c_tree_two_deviations)
   bs = [(lambda b=b: BEH[b]) for b in (b0, b1, b2, b3, b4)]
   mks = [(lambda k=k: (1 if fm == k else 0)) for k in range(5)]
   r = TC.run_tree_lazy(ti, bs, (0, 3)[rb], mks, [g0, g1, 0, 0, 0], soff, False)
